@@ -137,6 +137,7 @@ pub fn engine_by_name(name: &str) -> Option<Box<dyn Engine>> {
         "cli" => Some(Box::new(crate::engine_cli::Cli)),
         "imports" => Some(Box::new(crate::engine_imports::Imports)),
         "logger" => Some(Box::new(crate::engine_logger::LoggerEngine)),
+        "sched" => Some(Box::new(crate::engine_sched::SchedEngine)),
         _ => None,
     }
 }
